@@ -311,8 +311,17 @@ func init() {
 			// minimal-weight window matters here as it does for a ledger of hundreds of vertices
 			cfg.SignalBuf = uint64(2 + r.Intn(8))
 		}
-		cfg.StreamFaultKind = []string{"none", "none", "none", "dup-vertex", "dup-trx", "unknown-parent", "second-self-sealed", "empty-trx", "cut", "unknown-right-parent", "unknown-left-parent"}[r.Intn(11)]
 		if r.Chance(0.3) {
+			// the loader's vertex buffer (shipped: 1000) scaled down to these ledgers: what happens to the
+			// receiving side when the loader has given up and more vertices than the buffer holds keep coming
+			cfg.ChanCap = 1 + r.Intn(4)
+		}
+		cfg.StreamFaultKind = []string{"none", "none", "none", "dup-vertex", "dup-trx", "unknown-parent", "second-self-sealed", "empty-trx", "cut", "unknown-right-parent", "unknown-left-parent"}[r.Intn(11)]
+		if cfg.ChanCap > 0 && r.Chance(0.5) {
+			// the faults the loader refuses while the stream is still arriving (the others are judged at its end)
+			cfg.StreamFaultKind = []string{"dup-vertex", "dup-trx"}[r.Intn(2)]
+		}
+		if r.Chance(0.3) || (cfg.ChanCap > 0 && r.Chance(0.5)) {
 			cfg.PreemptP = []float64{0.02, 0.1}[r.Intn(2)]
 			cfg.Spread = 1 + r.Intn(3)
 		}
